@@ -496,6 +496,15 @@ pub fn catalogue(f: &Frame, rng: &mut Rng) -> Vec<Mal> {
                         push(&mut out, "bad_utf8", format!("{label}#{i}"), &g);
                     }
                 }
+                if label == "topic" || label == "will.topic" || label == "filter" {
+                    // TWO faults in one field: a forbidden character AND ill-formed UTF-8 (the text is not UTF-8: that is
+                    // what has to be reported, and no String may be built from it)
+                    for w in [&[b'a', b'+', 0xC0][..], &[b'#', 0xFF], &[b'a', 0, 0xC3], &[0xE2, 0x82, b'+', b'/', b'x'], &[b'+', b'x', 0xF0, 0x9F]] {
+                        let mut g = f.clone();
+                        g.body[i] = Seg::Field { label: label.clone(), text: true, content: w.to_vec() };
+                        push(&mut out, "bad_utf8", format!("{label}#{i} and a forbidden character"), &g);
+                    }
+                }
                 if label == "topic" || label == "will.topic" {
                     for w in [&b"a/+"[..], b"#", b"a\0b", b"+"] {
                         let mut g = f.clone();
@@ -759,6 +768,34 @@ pub fn spellings(f: &Frame) -> Vec<(String, Vec<u8>)> {
                 if g.bytes() != f.bytes() {
                     out.push(("properties in another order".to_string(), g.bytes()));
                 }
+            }
+        }
+    }
+    out
+}
+
+/// non-minimal PROPERTY length (a leniency of the decoders; outside C04 / C20): the same frame with each top-level
+/// property length padded by one continuation byte, one frame per property section
+pub fn nonminimal_proplen(f: &Frame) -> Vec<Vec<u8>> {
+    let mut out = Vec::new();
+    for i in 0..f.body.len() {
+        if let Seg::Props { items, .. } = &f.body[i] {
+            let mut inner = Vec::new();
+            for it in items {
+                for s in it {
+                    ser(s, &mut inner);
+                }
+            }
+            let mut l = varint(inner.len());
+            if l.len() < 4 {
+                let last = l.len() - 1;
+                l[last] |= 0x80;
+                l.push(0);
+                let mut g = f.clone();
+                if let Seg::Props { len_override, .. } = &mut g.body[i] {
+                    *len_override = Some(l);
+                }
+                out.push(g.bytes());
             }
         }
     }
